@@ -9,6 +9,8 @@ from the events of Model/Pipeline.lean; after every op the model is run to quies
     P      the server answers the oldest outstanding request on the live connection   (readerOk)
     X      the server closes the connection (the reader fails as soon as it waits for a response)
     D      the worker's pending dial succeeds (restart)         F   it fails (the worker dials again)
+    Y      the reader's ReadTimeout expires (readerFail with ErrTimeout: the connection is dropped, the late response
+           can never be handed to a later request)              W   the worker's 1s pause after a timeout error ends
   quiescence: blocked senders enter chW in FIFO order as soon as there is room, the writer takes, expires or writes,
   pushes to chR while there is room, the reader takes the head of chR, answered callers return, a failed reader stops
   the writer, chR is drained, the worker waits for its dial.
@@ -25,6 +27,7 @@ structure PlD where
   dead : Bool                  -- the server closed the live connection
   seen : List Nat
   rets : List (Nat × String)
+  rdTO : List Nat := []        -- items whose read failed with ErrTimeout (PipelineClient.ReadTimeout): class "timeout"
 
 def plClass : Res → String
   | .ok => "ok" | .timeout => "timeout" | .overflow => "overflow" | .connErr => "connerr" | .stopped => "connerr"
@@ -33,7 +36,8 @@ def plStep (d : PlD) (e : Event) : Option PlD :=
   (step d.s e).map fun s' =>
     let d1 := { d with s := s' }
     -- requests that newly reached the connection
-    if s'.onConn.length > d.s.onConn.length then { d1 with seen := d1.seen ++ s'.onConn.drop d.s.onConn.length } else d1
+    -- (after the server closed the connection, whether a flush still reaches it races with the worker's Close: not rendered)
+    if s'.onConn.length > d.s.onConn.length && !d.dead then { d1 with seen := d1.seen ++ s'.onConn.drop d.s.onConn.length } else d1
 
 def plFind (d : PlD) (p : Work → Bool) : Option Nat :=
   (List.range d.s.works.length).find? fun w => match d.s.works[w]? with
@@ -51,7 +55,7 @@ def plSettleOnce (d : PlD) : Option (Option PlD) :=
   | some w =>
     (plStep d (.returnDone w)).map fun d1 =>
       some (match s.works[w]? with
-        | some ⟨_, _, _, some r, _, _⟩ => { d1 with rets := d1.rets ++ [(w, plClass r)] }
+        | some ⟨_, _, _, some r, _, _⟩ => { d1 with rets := d1.rets ++ [(w, if d.rdTO.contains w then "timeout" else plClass r)] }
         | _ => d1)
   | none =>
   -- 3. writer
@@ -128,6 +132,13 @@ def plOp (d : PlD) (code : Char) (ns : List Nat) : Option PlD :=
   | 'X' => some { d with dead := true }
   | 'D' => (plStep d .restart).map fun d1 => { d1 with dead := false }
   | 'F' => some d
+  | 'Y' =>
+    -- the reader's ReadTimeout expires before the first byte of the response: `w.resp.Read` fails with ErrTimeout,
+    -- the reader returns, the worker drops the connection (readerFail) and pauses 1s before it dials again
+    match d.s.reader with
+    | .reading w => (plStep d .readerFail).map fun d1 => { d1 with rdTO := d1.rdTO ++ [w] }
+    | _ => none
+  | 'W' => some d
   | _ => none
 
 def plRender (d : PlD) : String :=
@@ -151,7 +162,7 @@ def opsPipeline (op : String) (a : List Bytes) : Option String :=
     | [m] :: ops =>
       -- no connection yet: the worker is about to dial (reachable from init by writerIdleExit, readerStop)
       (run (init m.toNat) [.writerIdleExit, .readerStop]).bind fun s0 =>
-        (plRun ⟨s0, false, [], []⟩ ops []).map (";".intercalate ·)
+        (plRun ⟨s0, false, [], [], []⟩ ops []).map (";".intercalate ·)
     | _ => none
   | _ => none
 
